@@ -17,7 +17,7 @@ Definition kid_consistent (kid : string) (k : jwk) : bool :=
 (* FindMatchingKey's answer is right for (kid, use, alg, keys) *)
 Definition find_spec (kid use alg : string) (keys : list jwk) (r : find_result) : bool :=
   match exact_keys kid use alg keys, loose_keys kid use alg keys, r with
-  | _ :: _ as ex, _, FOk k => existsb (jwk_eqb k) ex          (* an exact match is returned *)
+  | (_ :: _) as ex, _, FOk k => existsb (jwk_eqb k) ex          (* an exact match is returned *)
   | [], [k'], FOk k => jwk_eqb k k'                          (* the unique possible key *)
   | [], _ :: _ :: _, FMultiple => true                       (* ambiguity is reported *)
   | [], [], FNone => true
